@@ -169,6 +169,11 @@ MUTATIONS = {
         ('reflection', 'tonic-reflection/src/server/mod.rs', r'extract_name\(&enum_name, "enum value", value\.name\.as_ref\(\)\)\?', 'extract_name(prefix, "enum value", value.name.as_ref())?', 'enum values indexed without the enum name'),
         ('reflection', 'tonic-reflection/src/server/mod.rs', r'extract_name\(&service_name, "method", method\.name\.as_ref\(\)\)\?', 'extract_name(prefix, "method", method.name.as_ref())?', 'methods indexed without the service name'),
         ('reflection', 'tonic-reflection/src/server/mod.rs', r'if state\.files\.contains_key\(&name\) \{\s*continue;\s*\}', 'if false {\n                    continue;\n                }', 'a duplicate file registration replaces the first'),
+        ('reflection', 'tonic-reflection/src/server/mod.rs', r'self\.file_descriptor_sets\.push\(file_descriptor_set\);', 'self.file_descriptor_sets = vec![file_descriptor_set];', 'registering a set forgets the ones registered before'),
+        ('reflection', 'tonic-reflection/src/server/mod.rs', r'self\.file_descriptor_sets,\n                self\.use_all_service_names,\n            \)\?\),\n        \)\)\n    \}\n\n    /// Build a v1alpha', 'Vec::new(),\n                self.use_all_service_names,\n            )?),\n        ))\n    }\n\n    /// Build a v1alpha', 'build_v1 drops the decoded-form sets'),
+        ('reflection', 'tonic-reflection/src/server/mod.rs', r'if self\.include_reflection_service \{\n            self =\n', 'if !self.include_reflection_service {\n            self =\n', 'build_v1alpha includes its own descriptors exactly when asked not to'),
+        ('reflection', 'tonic-reflection/src/server/mod.rs', r'self\.use_all_service_names = false;', 'self.use_all_service_names = true;', 'chosen service names are ignored'),
+        ('reflection', 'tonic-reflection/src/server/v1.rs', r'state: Arc::new\(state\),', 'state: Arc::new(ReflectionServiceState { service_names: state.service_names, files: HashMap::new(), symbols: state.symbols }),', 'the v1 service is built over an index without its file table'),
         ('reflection', 'tonic-reflection/src/server/mod.rs', r'match self\.symbols\.get\(symbol\) \{', 'match self.files.get(symbol) {', 'symbol lookup searches the file table'),
         ('reflection', 'tonic-reflection/src/server/mod.rs', r'Ok\(format!\("\{\}\.\{\}", prefix, name\)\)', 'Ok(format!("{}.{}", name, prefix))', 'qualified name built backwards'),
         ('reflection', 'tonic-reflection/src/server/mod.rs', r'if use_all_service_names \{\s*self\.service_names\.push', 'if !use_all_service_names {\n                self.service_names.push', 'service list filled only when explicit names were chosen'),
